@@ -152,6 +152,8 @@ class VLock:
         return True
 
     def release(self):
+        if self.owner is None:
+            raise RuntimeError("release unlocked lock")          # as threading.Lock does
         self.owner = None
         if self.on: self.on("release", None)
 
@@ -179,7 +181,12 @@ class VCond:
     def __exit__(self, *a):
         self.m.release()
 
+    def _owned(self, what):
+        if self.m.owner != self.S.me():
+            raise RuntimeError("cannot %s on un-acquired lock" % what)      # as threading.Condition does
+
     def wait(self, timeout=None):
+        self._owned("wait")
         tok = [False]
         self.waiters.append(tok)
         self.m.release()
@@ -190,12 +197,14 @@ class VCond:
         return r
 
     def notify(self, n=1):
+        self._owned("notify")
         for tok in self.waiters[:n]:
             tok[0] = True
         del self.waiters[:n]
         if self.on: self.on("notify", n)
 
     def notify_all(self):
+        self._owned("notify")
         self.gen += 1
         for tok in self.waiters:
             tok[0] = True
